@@ -212,6 +212,8 @@ class Ref:
         rid = g["id"]
         if rid in self.rxns:
             return  # "Reactions with identifiers identical to a reaction already in the model are ignored."
+        if self.bad_rid(rid):  # e.g. a user variable took the identifier while the reaction was out of the model
+            raise Expect(("ValueError", "KeyError"))
         mets = {}
         by_uid = {m["uid"]: mid for mid, m in self.mets.items()}
         for uid, c in g["mets"]:
